@@ -186,7 +186,7 @@ def ppo_experiences(roll, obs_kind, form):
 def member_label(g, G, order="id"):
     """number of the g-th member of a homogeneous group in its agent id: in list order, or reversed ("agent_1" listed before
     "agent_0": the order of agent_ids is the user's, it need not be the lexicographic one)"""
-    return g if order == "id" else G - 1 - g
+    return G - 1 - g if order == "rev" else g
 
 
 def ippo_experiences(groups, nd_form, order="id"):
@@ -210,6 +210,13 @@ def ippo_experiences(groups, nd_form, order="id"):
             exp[6][aid] = np.stack([_obs("box", T, e, g, E, G, grp) for e in range(E)])
             nd = np.array([roll["nd"][e][g] for e in range(E)], dtype=np.int8)
             exp[7][aid] = nd if nd_form == "loop" else nd.reshape(1, E)
+    if order == "mixed":
+        # every component dictionary is keyed by agent id; its key order carries no meaning: rewards, values, next_obs and next_done
+        # are handed over in other key orders than the observations
+        for k, rot in ((3, 1), (5, 2), (6, -1), (7, 1)):
+            keys = list(exp[k])
+            keys = keys[::-1] if rot == -1 else keys[rot % len(keys):] + keys[:rot % len(keys)]
+            exp[k] = {a: exp[k][a] for a in keys}
     return tuple(exp)
 
 
